@@ -130,6 +130,7 @@ impl Worker {
         let exe = std::env::current_exe().map_err(|e| e.to_string())?;
         let mut proc = Command::new(exe)
             .args(["worker", check, tier.name(), &seed.to_string()])
+            .env(crate::w2::KINDS_ENV, crate::w2::kinds_env_value())
             .stdin(Stdio::piped())
             .stdout(Stdio::piped())
             .stderr(Stdio::null())
